@@ -90,7 +90,7 @@ def meta(tier):
     return {
         'functions': loader.functions_encoded(fns), 'sig': sig,
         'bounds': '%d expressions of depth 1..3 (incl. TT objects scaled by one-element tensors that depend on tracked cores) over the differentiable operations (full, +, -, *, @, scalar ops, kron, sum, dot, norm, bilinear_form, slicing, apply_mask, cat, pad, diag, mprod, TT layer) on operands '
-                  'of order 1..2 (thorough 3), sizes <= 3, ranks <= 2(3); every choice of tracked operand / single tracked core; grad.grad, grad.grad_list (flat and nested); all core entries symbolic' % len(EXPRS),
+                  'of order 1..2 (thorough 3), sizes <= 3, ranks <= 2(3); every choice of tracked operand / single tracked core; grad.grad, grad.grad_list (flat and nested); operands that are strided slices / transposed operators (non-contiguous tracked cores); all core entries symbolic' % len(EXPRS),
         'outside': 'the derivative of each torch primitive (torch autograd engine is trusted); saved-tensor version checks; float rounding; orders > 3; expressions deeper than 3',
         'assumptions': ['autograd model of tv/autograd.py: leaves = symbols, detach/item/numpy/tensor(t) = value-equal cut copies, backward = exact symbolic differentiation of the scalar expression',
                         'symtorch validated per run against real torch (values and gradients: the real replay compares torch.autograd gradients of the TT and the dense expression)',
